@@ -95,7 +95,9 @@ def stepsGo (s : RState) : List Item → List String → RState × List String
     match s.addItem it with
     | .ok s' => stepsGo s' rest (acc ++ [s!"ok:{s'.out.length}:{s'.tbl.length}"])
     | .tooBig s' => stepsGo s' rest (acc ++ [s!"big:{s'.out.length}:{s'.tbl.length}"])
-    | .err e => (s, acc ++ ["err:" ++ e.toString])
+    | .err e =>
+      -- `_set_section` runs before the item is written: the section marker moves even when the add then fails
+      ((match s.setSection it.sec with | .ok s1 => s1 | .error _ => s), acc ++ ["err:" ++ e.toString])
 
 def handleC03 : List String → Option String
   | "c03.steps" :: ms :: edns :: rest => do
